@@ -85,6 +85,29 @@ def lean_build(prop=None):
         lock.close()
 
 
+def leanchecker(prop):
+    """thorough tier: Lean's independent re-checker replays the compiled declarations of the property's
+    theorem file (and everything it imports from this project) through the kernel.
+    Returns (status, text): status 'ok' | 'rejected' | 'not-completed' (killed / timed out: machinery, not a verdict)."""
+    lock = open(os.path.join(LEAN, ".lake", "verif.lock"), "w")
+    fcntl.flock(lock, fcntl.LOCK_EX)
+    try:
+        try:
+            p = subprocess.run(["lake", "env", "leanchecker", f"VirVerif.Properties.{prop}"], cwd=LEAN,
+                               capture_output=True, text=True, timeout=1800)
+        except subprocess.TimeoutExpired:
+            return "not-completed", "timeout"
+        out = (p.stdout + p.stderr)[-800:]
+        if p.returncode == 0:
+            return "ok", out
+        if p.returncode < 0 or "Could not find any oleans" in out:
+            return "not-completed", f"exit {p.returncode}: {out}"
+        return "rejected", out
+    finally:
+        fcntl.flock(lock, fcntl.LOCK_UN)
+        lock.close()
+
+
 def theorem_names(prop):
     """names of the theorems stated in Properties/<prop>.lean (comments stripped)"""
     path = os.path.join(LEAN, "VirVerif", "Properties", prop + ".lean")
@@ -285,6 +308,12 @@ class Check:
         )
         self.trusted = [f"{n}: axioms {axs}" for (n, axs) in a["theorems"]]
         self.proof_problems += a["problems"]
+        if self.tier == "thorough" and not a["problems"]:
+            st, txt = leanchecker(self.prop)
+            self.trusted.append(f"leanchecker VirVerif.Properties.{self.prop}: {st}")
+            if st == "rejected":
+                self.proof_problems.append("leanchecker rejected the compiled theorems: " + txt)
+                a["problems"].append("leanchecker")
         if not a["problems"]:
             self.driver = Driver()
             self.driver.selftest()
